@@ -15,8 +15,8 @@
    Pointer identity: the cell holds (stamp, value); a derived value gets a fresh stamp unless
    the pure function returns its argument itself ([ident], zap's `Logger.With()` with no
    fields), so CompareAndSwap compares stamps exactly as Go compares pointers.
-   A successful IStore / ICas is the linearisation point of its operation and is recorded in
-   the trace returned by [run].                                                              *)
+   A successful IStore / ICas is the linearisation point of its operation and is recorded,
+   tagged with the thread id, in the trace returned by [run].                                *)
 From Coq Require Import List Arith Bool.
 Import ListNotations.
 
@@ -68,24 +68,26 @@ Section Machine.
     | h :: t, S k => h :: set_nth k x t
     end.
 
-  Definition step (st : mstate) (tid : nat) : mstate * option O :=
+  Definition tag (tid : nat) (e : option O) : list (nat * O) :=
+    match e with Some o => [(tid, o)] | None => [] end.
+
+  Definition step (st : mstate) (tid : nat) : mstate * list (nat * O) :=
     match nth_error (m_threads st) tid with
-    | None => (st, None)                                  (* no such thread: stutter *)
+    | None => (st, [])                                    (* no such thread: stutter *)
     | Some th =>
         let '(c, n, th', ev) := step_thread (m_cell st) (m_next st) th in
-        ({| m_cell := c; m_next := n; m_threads := set_nth tid th' (m_threads st) |}, ev)
+        ({| m_cell := c; m_next := n; m_threads := set_nth tid th' (m_threads st) |}, tag tid ev)
     end.
 
-  Definition ev_list (e : option O) : list O := match e with Some o => [o] | None => [] end.
-
-  (* run a schedule; returns the final state and the operations in linearisation order *)
-  Fixpoint run (st : mstate) (sched : list nat) : mstate * list O :=
+  (* run a schedule; returns the final state and the (thread, operation) pairs in
+     linearisation order *)
+  Fixpoint run (st : mstate) (sched : list nat) : mstate * list (nat * O) :=
     match sched with
     | [] => (st, [])
     | t :: rest =>
         let '(st1, ev) := step st t in
         let '(st2, tr) := run st1 rest in
-        (st2, ev_list ev ++ tr)
+        (st2, ev ++ tr)
     end.
 
   (* the cell value after every step of the schedule (what the replay harness observes) *)
@@ -98,6 +100,11 @@ Section Machine.
   Definition init_state (v0 : V) (progs : list (list O)) : mstate :=
     {| m_cell := (0, v0); m_next := 1;
        m_threads := map (fun ops => {| t_ops := ops; t_pc := 0; t_reg := (0, v0) |}) progs |}.
+
+  (* the operations of one thread in a trace, and the trace without the tags *)
+  Definition ops_of (tid : nat) (tr : list (nat * O)) : list O :=
+    map snd (filter (fun e => fst e =? tid) tr).
+  Definition untag (tr : list (nat * O)) : list O := map snd tr.
 
   Definition all_returned (st : mstate) : bool :=
     forallb (fun th => match t_ops th with [] => true | _ => false end) (m_threads st).
